@@ -290,11 +290,13 @@ func c01RtTCP(fs []string) string {
 	ln.ch <- A
 	state := "N"
 	parked := false
-	select {
-	case <-A.arrived:
-		parked = true
-	case <-time.After(300 * time.Millisecond):
-		// position not reached (e.g. position 4 needs a second read): go on without the park
+	if pos > 0 {
+		select {
+		case <-A.arrived:
+			parked = true
+		case <-time.After(300 * time.Millisecond):
+			// position not reached (the relay no longer makes that call): go on without the park
+		}
 	}
 	before, _ := far.total()
 	B.feed(pB)
